@@ -139,6 +139,10 @@ def skeletons():
     add('dict_as_tuple', ['str', 'int'], lambda a, b: ((a, b),)); add('namedtuple', ['int', 'int'], lambda a, b: NT(a, b)); add('dataclass', ['int', 'int'], lambda a, b: DC(a, b)); add('dataclass_dict', ['int', 'int'], lambda a, b: {'x': a, 'y': b})
     add('immutable', ['int', 'int'], lambda a, b: Plain(a, b)); add('immutable2', ['int', 'int'], lambda a, b: Plain2(a, b)); add('immutable_twin', ['int', 'int'], lambda a, b: PlainTwin(a, b)); add('immutable_args', ['int', 'int'], lambda a, b: (a, b, ()))
     add('frozendict', ['str', 'int'], lambda a, b: ntypes.frozendict({a: b})); add('frozenmultiset', ['int', 'int'], lambda a, b: ntypes.frozenmultiset([a, b]))
+    # solver method objects carry hand-written hashes over their fields (they are part of the cache key of System.solve): every field must enter the pre-image
+    from nutils import solver as _solver
+    add('m_direct', ['float'], lambda a: _solver.Direct(atol=a)); add('m_newton', ['float'], lambda a: _solver.Newton(atol=a)); add('m_reuse', ['float', 'float'], lambda a, b: _solver.ReuseNewton(require=a, atol=b))
+    add('m_linesearch', ['float', 'float', 'float'], lambda a, b, c: _solver.LinesearchNewton(failrelax=a, relax0=b, atol=c)); add('m_minimize', ['float', 'float', 'float', 'float'], lambda a, b, c, d: _solver.Minimize(rampup=a, rampdown=b, failrelax=c, atol=d))
     return S
 
 # ---------------------------------------------------------------- translation to z3 strings
@@ -178,6 +182,7 @@ class Enc:
             else: self.cons.append(z3.Length(v) <= 8)
         self._memo = {}
         self.n = 0
+        self.used = set()          # leaves whose encoding occurs somewhere in the recorded pre-images
         self.structure = self._shape(self.top)
         self.term = self.tok(self.top)
     def leaf_bytes(self, i):
@@ -208,7 +213,8 @@ class Enc:
         return z3.Concat(*terms) if len(terms) > 1 else terms[0]
     def part(self, p):
         for i in range(len(self.kinds)):
-            if bytes(p) == self.leaf_bytes(i): return self.vars[i]
+            if bytes(p) == self.leaf_bytes(i):
+                self.used.add(i); return self.vars[i]
         return bstr(bytes(p))
     def pre(self, d):
         terms = []
@@ -250,6 +256,16 @@ def query(item):
     S = skeletons()
     A = Enc('a', na, *S[na]); B = Enc('b', nb, *S[nb])
     out = dict(pair=f'{na} vs {nb}', result=None, model=None, ndig=len(A.digs) + len(B.digs))
+    if na == nb and len(A.used) < len(A.kinds):
+        # a leaf that never enters the pre-image: two values that differ in that leaf only have identical pre-images (no solver needed; replayed with the real SHA-1)
+        i = min(set(range(len(A.kinds))) - A.used)
+        def text(enc, j, alt):
+            v = SENT[enc.kinds[j]][1 if alt else 0]
+            return repr(v) if enc.kinds[j] in ('int', 'float', 'bool') else (v if enc.kinds[j] == 'str' else v.decode('latin1'))
+        out['result'] = 'sat'
+        out['model'] = dict(a=[text(A, j, False) for j in range(len(A.kinds))], b=[text(A, j, j == i) for j in range(len(A.kinds))])
+        out['note'] = f'leaf {i} ({A.kinds[i]}) does not enter the hash pre-image'
+        return out
     s = z3.Solver(); s.set('timeout', 60000)
     s.add(*A.cons, *B.cons)
     alld = A.digs + B.digs
@@ -275,7 +291,9 @@ def replay_collision(na, nb, model):
         text = text.strip('"')
         if kind == 'int': return int(text)
         if kind == 'bool': return text == 'True'
-        if kind == 'float': return float(text) if text.replace('.', '').replace('-', '').replace('e', '').isdigit() else 0.5
+        if kind == 'float':       # repr(float) is an opaque injective text in the encoding: distinct texts stand for distinct floats
+            try: return float(text)
+            except ValueError: return 1.0 + (int.from_bytes(text.encode('utf8', 'replace')[:6], 'big') % 9973) / 64.
         if kind == 'bytes': return text.encode('latin1', 'replace')
         return text
     try:
@@ -330,7 +348,10 @@ def main(argv=None):
     if args.replay:
         import json
         d = json.load(open(args.replay))['replay']
-        if d['kind'] == 'views':
+        if d['kind'] == 'stream':
+            from checks import c17_views
+            ok, detail = c17_views.replay_stream(d['case'])
+        elif d['kind'] == 'views':
             from checks import c17_views
             ok, detail = c17_views.replay(d['case'])
         elif d['kind'] == 'collision': ok, detail = replay_collision(d['a'], d['b'], d['model'])
@@ -357,6 +378,7 @@ def main(argv=None):
         same = [(a, a) for a in names]
         confusions = [('tuple2', 'list2'), ('nest_l', 'nest_r'), ('tuple3', 'nest_l'), ('tuple3', 'nest_r'), ('tuple2', 'nest_1'), ('tuple1', 'nest_11'), ('int', 'str'), ('int', 'bool'), ('int', 'float'), ('str', 'bytes'), ('dict1', 'dict_as_tuple'), ('dict1', 'frozendict'),
                       ('tuple2', 'namedtuple'), ('dataclass', 'dataclass_dict'), ('dataclass', 'tuple2'), ('immutable', 'immutable2'), ('immutable', 'immutable_twin'), ('immutable', 'immutable_args'), ('frozenset2', 'tuple2'), ('frozenset2', 'frozenmultiset'),
+                      ('m_direct', 'm_newton'), ('m_newton', 'm_reuse'), ('m_linesearch', 'm_minimize'),
                       ('tuple_si', 'tuple_is'), ('tuple_str2', 'tuple_bytes2'), ('tuple0', 'list0'), ('tuple0', 'frozenset0'), ('dict0', 'frozenset0'), ('none', 'ellipsis'), ('type_int', 'type_str'), ('type_int', 'int'), ('tuple2', 'tuple3'), ('tuple1', 'int'), ('list2', 'frozenset2'), ('set_str2', 'tuple_str2')]
         rest = [p for p in pairs if p not in same and p not in confusions and (p[1], p[0]) not in confusions]
         pairs = same + confusions + rng.sample(rest, 120)
@@ -393,6 +415,15 @@ def main(argv=None):
                 ok, detail = c17_views.replay(c)
                 if ok: run.violation(f'views:{c["kind"]}:{o["label"]}', f'nutils_hash of an ndarray: {detail}'[:500], dict(kind='views', case=c)); break
                 else: run.unconfirmed(o['label'], f'{c["kind"]} model did not reproduce ({detail})')
+        o = c17_views.stream_obligations()
+        obligations += o['unsat'] + o['unknown'] + len(o['sat']); discharged += o['unsat']
+        run.case(o['label'], o['unsat'] > 0); run.paths += o['paths']; run.queries['exact_unsat'] += o['unsat']; run.queries['unknown'] += o['unknown']; run.queries['sat'] += len(o['sat'])
+        run.sample(dict(obligation=o['label'], paths=o['paths'], proved=o['unsat']), limit=30)
+        if o['errors'] or o['unknown'] or not o['exhaustive']: run.unconfirmed(o['label'], f'{o["errors"][:2]}')
+        for c in o['sat']:
+            ok, detail = c17_views.replay_stream(c)
+            if ok: run.violation('stream:' + o['label'], f'nutils_hash of a seekable stream does not cover the whole content: {detail}', dict(kind='stream', case=c)); break
+            else: run.unconfirmed(o['label'], f'stream model did not reproduce ({detail})')
         if nv == 0: run.harness_error('array-view obligations: nothing was proved (vacuous)')
         run.stubs.append('nutils.types.numpy -> proxy whose ndarray is a symbolic strided-view class; ndarray.tobytes(order) modelled after numpy\'s documented semantics')
         run.bounds['array_views'] = 'shapes %s, strides multiples of 8 in [-64,64], non-overlapping, element types <f8/<i8' % c17_views.SHAPES
